@@ -65,7 +65,7 @@ func confirms(label string, nr *NativeResult) bool {
 				return true
 			}
 		}
-		return nr.Panic != "" || nr.Timeout
+		return false
 	}
 	for _, f := range nr.Failed {
 		if f == label {
